@@ -321,6 +321,14 @@ func init() {
 			}
 		}
 		jobs = append(jobs, vx.Job{Scenario: "codec.limits", Weight: 1}, vx.Job{Scenario: "codec.sessionlimit", Weight: 2})
+		// the unordered Stream.Write path in front of the codec: every size up to the per-frame maximum
+		// must yield exactly one message within the limit, the first size beyond it none
+		st := "37"
+		if tier != "quick" {
+			st = "1"
+		}
+		jobs = append(jobs, vx.Job{Scenario: "dgram.sizes", Params: vx.P("method", "plain", "step", st), Weight: 3},
+			vx.Job{Scenario: "dgram.sizes", Params: vx.P("method", "aes-256-gcm", "step", st), Weight: 3})
 		return jobs
 	})
 }
